@@ -83,10 +83,16 @@ class Report:
         if not cond:
             raise AnalysisError(f"{self.prop}: anchor/idiom not found: {what}")
 
+    def new_violations(self) -> List["Violation"]:
+        """violations that no recorded known finding accounts for — only these can stand in for a vanished anchor or a
+        shortfall of instances (a known finding is present on the unchanged tree too and explains neither)"""
+        known = load_known()
+        return [v for v in self.violations if match_known(v, known) is None]
+
     def check_floors(self) -> None:
         # a check that already reports a violation is not passing vacuously: a shortfall of instances is then part of
         # the breakage it reports (a removed flag / counter / handler), not a blind spot
-        if self.violations:
+        if self.new_violations():
             return
         for rid, r in self.rules.items():
             if r["instances"] < r["floor"]:
@@ -103,7 +109,7 @@ def run_check(mod, repo: Repo, rep: "Report") -> None:
     try:
         mod.check(repo, rep)
     except AnalysisError as e:
-        if not rep.violations:
+        if not rep.new_violations():
             raise
         rep.notes.append(f"analysis stopped early ({e}); the violations recorded before that point are reported")
         return
